@@ -23,8 +23,8 @@ theorem alnOfLine_offset (nodes : String → Option NodeTags) (line : Str) (ord 
   split at h
   · split at h
     · rename_i path plen ps pe _ _ _
-      cases hp : processAlignment nodes (ConvText.parseUnstableSteps path) (ConvText.toNat plen) (ConvText.toNat ps)
-          (ConvText.toNat pe) (ord : Nat) with
+      cases hp : processAlignment nodes (ConvText.parseUnstableSteps path) (Gaf.toNat plen) (Gaf.toNat ps)
+          (Gaf.toNat pe) (ord : Nat) with
       | error e => rw [hp] at h; cases h
       | ok b =>
         rw [hp] at h
